@@ -65,3 +65,9 @@ reg("C23", "exploration", "runtime monitor: conservation invariant on the (name,
 reg("C24", "exploration", "runtime monitor: conservation (length, byte multiset, comment multiset) + reference model (independent bracket-depth splitter over the scanner's token stream) for RearrangeFuncs, and the SourceEx implication checked with the real format.Source",
     "Top-level statements of input and output are compared as token sequences, so the oracle is independent of how the implementation attaches whitespace and comments to chunks.",
     "A function declaration is `func name(` or `func (recv) name(`; func literals called in place are statements.")
+reg("C14", "exploration", "runtime monitor: differential execution against go/parser (reference implementation) with a cross-package reflection shape comparator, on the repository's and 16 std packages' .go files, re-spaced variants (kept only if go/parser yields the same tree) and generated Go files",
+    "go/parser defines acceptance and the reference tree; the XGo parser must accept the same bytes and produce the same node types, identifiers, literals and operators (XGo-only fields zero).",
+    "Corpus files are taken to be well-typed because they build; four by-design/unsupported Go features are recorded as known findings by feature signature.")
+reg("C37", "exploration", "runtime monitor: round-trip togo(fromgo(f)) per declaration compared through go/printer header text, panic capture, on repository + 20 std packages' .go files (generics, unions, tags, iota, func-typed vars) and generated Go files",
+    "Every declaration of every file is converted both ways by the real code and its printed header must be identical to the original's.",
+    "Function and closure bodies are removed on both sides (the conversion documents that it skips them); Doc/Comment fields cleared.")
